@@ -8,9 +8,11 @@ Streams (model `Wpull.Warc` vs the real code in ctx.repo):
             CDX line's byte range is cut out of the named file and must be exactly
             one gzip member / one record whose fields equal the line; status and MIME
             must be those of the bytes the "server" sent
+  move      oracle only: --warc-cdx + --warc-move, second run on the same prefix; lines resolved in the move directory
   client    oracle only: the real HTTP client + recorder over harness/fakenet.py
 """
 import io
+import os
 import compat  # noqa: F401
 from runner import enc, Infra
 from engines import warc_common as wc
@@ -127,7 +129,138 @@ def stream_status(ctx, n):
             ctx.disagree('status', {'line': v}, rep, real)
 
 
+# ------------------------------------------------------------------ --warc-move
+import re as _re
+ARCHIVE_NAME = _re.compile(r'^out(-\d{5,}|-meta)?\.warc(\.gz)?(\.\d+)?$')
+CDX_NAME = _re.compile(r'^out\.cdx(\.\d+)?$')
+
+
+def gen_move(rng):
+    cfg = wc.gen_cfg(rng)
+    cfg.update(cdx=True, appending=False, revisit=False, move_to=True, max_size=rng.choice([None, 0, 300, 1500, 1500]))
+    lives = []
+    for li in range(rng.choice([1, 2, 2, 2])):
+        c = dict(cfg, appending=(li > 0 and rng.random() < 0.5), log=rng.random() < 0.6)
+        ops = [o for i in range(rng.choice([1, 2, 4])) for o in wc.gen_http_session(rng, 100 * li + i, c)]
+        lives.append({'cfg': c, 'ops': ops, 'logs': ['moved life %d' % li] if c['log'] else [], 'snap': False})
+    return {'lives': lives, 'seed': rng.getrandbits(32)}
+
+
+def oracle_moved(tree):
+    """Every CDX file of the working directory and of the move directory, as the files lie after all runs: each line's
+    (file, offset, length) is resolved by NAME where the index lies (else in the other directory) and must be exactly
+    the record the line describes; every response record of every archive file has exactly one line."""
+    fails = []
+
+    def split(key):
+        d, _, b = key.rpartition('/')
+        return d, b
+    lines_for = {}
+    for key, data in sorted(tree.items()):
+        d, b = split(key)
+        if not CDX_NAME.match(b):
+            continue
+        text = data.split(b'\n')
+        if text[-1] != b'':
+            fails.append(('cdx-format', '_write_cdx_field', '%s does not end with a newline' % key))
+        text = [t for t in text[:-1]] if text[-1] == b'' else text
+        if not text or text[0] != wc.CDX_HEADER.encode():
+            fails.append(('cdx-format', '_write_cdx_header', '%s: first line %r' % (key, text[:1])))
+        for ln in text[1:]:
+            cols = ln.split(b' ')
+            if len(cols) != 9:
+                fails.append(('cdx-format', '_write_cdx_field', '%s: line %r' % (key, ln[:120])))
+                continue
+            a, b_, m, s, k, S, V, g, u = cols
+            lines_for[u] = lines_for.get(u, 0) + 1
+            name = g.decode('latin-1')
+            cand = [x for x in ((d + '/' + name) if d else name, name if d else wc.MOVED + '/' + name) if x in tree]
+            where = 'line of %s for %s' % (key, u.decode('latin-1'))
+            if not cand:
+                fails.append(('cdx-range', '_move_file_to_dest_dir', '%s: names %r, which is neither beside the index nor in the other directory (files: %s)'
+                              % (where, name, sorted(tree))))
+                continue
+            data2 = tree[cand[0]]
+            off, size = int(V), int(S)
+            piece = data2[off:off + size]
+            try:
+                if len(piece) != size:
+                    raise wc.Invalid('range %d+%d exceeds the %d-byte file' % (off, size, len(data2)))
+                if name.endswith('.gz'):
+                    end, payload = wc.read_gzip_member(piece, 0)
+                    if end != len(piece):
+                        raise wc.Invalid('more than one gzip member')
+                else:
+                    payload = piece
+                end, fields, block = wc.read_warc_record(payload, 0)
+                if end != len(payload):
+                    raise wc.Invalid('more than one record')
+                r = wc.Rec(name, off, size, payload, fields, block)
+                if r.id != u or r.get(b'WARC-Target-URI') != a:
+                    raise wc.Invalid('the record there is %r for %r, the line describes %r for %r'
+                                     % (r.id, r.get(b'WARC-Target-URI'), u, a))
+            except wc.Invalid as e:
+                fails.append(('cdx-range', '_move_file_to_dest_dir',
+                              '%s: bytes %d+%d of %s (the file of that name as it lies after all runs) are not the record the line describes: %s'
+                              % (where, off, size, cand[0], e)))
+    for key, data in sorted(tree.items()):
+        d, b = split(key)
+        if not ARCHIVE_NAME.match(b) or key.endswith('-wpullinc'):
+            continue
+        try:
+            recs = wc.read_warc_file(key, data, '.warc.gz' in b)
+        except wc.Invalid as e:
+            fails.append(('invalid-record-sequence', 'write_record', '%s: %s' % (key, e)))
+            continue
+        for r in recs:
+            n = lines_for.get(r.id, 0)
+            if r.type == b'response' and n != 1:
+                fails.append(('cdx-line-count', 'write_record', 'response record %r of %s has %d CDX lines' % (r.id, key, n)))
+    return fails
+
+
+def check_move(ctx, case):
+    import shutil
+    import tempfile
+    basedir = os.environ.get('TMPDIR') or tempfile.gettempdir()
+    directory = tempfile.mkdtemp(prefix='wpull-verif-warcv-', dir=basedir)
+    fails = []
+    tags = []
+    try:
+        for li, run in enumerate(case['lives']):
+            obs = wc.run_real_life(directory, run, 'move/%d/%d' % (case['seed'], li))
+            r = obs['raised']
+            if r:
+                if r['type'] == 'Error' and 'already exists' in r['text']:
+                    # the move directory already holds a file of that name: HEAD refuses to overwrite it
+                    tags.append('move:collision-refused')
+                else:
+                    fails.append(('recorder-raised', r['where'], '%s(%s) at op %d (%s) of life %d' % (r['type'], r['text'], r['index'], r['op'], li)))
+                break
+            tags.append('move:life%d:%s' % (li, 'append' if run['cfg']['appending'] else 'startover'))
+        tree = wc.read_dir(directory)
+        fails += oracle_moved(tree)
+        tags.append('move:moved-files=%s' % min(5, len([k for k in tree if k.startswith(wc.MOVED + '/')])))
+    finally:
+        shutil.rmtree(directory, ignore_errors=True)
+    ctx.case(('move', repr(case)), tags=sorted(set(tags)))
+    for kind, where, detail in fails:
+        ctx.fail(kind, where, {'stream': 'move', 'move': case}, detail + ' [--warc-move]')
+
+
+def stream_move(ctx, n):
+    rng = ctx.subrng('move')
+    cases = [gen_move(rng) for _ in range(n)]
+    for c in cases:
+        check_move(ctx, c)
+    if cases:
+        ctx.sample({'stream': 'move', 'lives': [(l['cfg']['appending'], l['cfg']['max_size']) for l in cases[0]['lives']]})
+
+
 def replay(ctx, case, kind=None, where=None):
+    if case.get('stream') == 'move':
+        check_move(ctx, case['move'])
+        return
     base.replay(ctx, case, kind, where)
 
 
@@ -151,6 +284,7 @@ def run(ctx):
     from engines import warc_client
     warc_client.stream_client(ctx, ctx.scale(200, 3000), PID)
     warc_client.stream_mixed(ctx, ctx.scale(100, 1500), PID)
+    stream_move(ctx, ctx.scale(120, 2000))
 
 
 def search(ctx):
